@@ -34,6 +34,12 @@ pub enum Regime {
     Tri4,
     /// zeros of both signs mixed with small signed values (bar-to-bar changes of a quiet price)
     ZeroMix,
+    /// quiet: m * (1 + 1e-5 * w), w a non-repeating small integer pattern - a nearly flat window right
+    /// after large values (cancellation residue of either sign in a running variance)
+    Quiet,
+    /// alternating high / low plateaus of lengths 80, 79, ... 2, 1, then a plain zig-zag: an extreme held for
+    /// exactly n+1 inputs occurs for every window length up to 79 and only shorter holds follow it
+    PlateauSweep,
 }
 
 impl Regime {
@@ -55,6 +61,8 @@ impl Regime {
             Regime::ShortSaw => "short-saw",
             Regime::Tri4 => "tri4",
             Regime::ZeroMix => "zero-mix",
+            Regime::Quiet => "quiet",
+            Regime::PlateauSweep => "plateau-sweep",
         }
     }
 }
@@ -128,6 +136,26 @@ impl Gen {
             Regime::ShortSaw => m * (1.1 + (self.t % 7) as f64 * 123.456),
             Regime::Tri4 => m * (8.0 + [0.0, 1.0, 0.0, -1.0][self.t % 4]),
             Regime::ZeroMix => [0.0, -0.0, m, -0.0, -m, 0.0, 0.0, -2.0 * m, -0.0][self.t % 9],
+            Regime::Quiet => m * (1.0 + 1e-5 * (((self.t * 7) % 13) as f64 - 6.0 + ((self.t / 13) % 5) as f64 * 0.37)),
+            Regime::PlateauSweep => {
+                // plateau k has length 80 - k for k < 80 and 1 afterwards (a plain zig-zag): every hold length
+                // occurs once and is followed by shorter ones only
+                let mut k = 0usize;
+                let mut rest = i;
+                loop {
+                    let l = if k < 80 { 80 - k } else { 1 };
+                    if rest < l {
+                        break;
+                    }
+                    rest -= l;
+                    k += 1;
+                    if k >= 80 {
+                        k += rest;
+                        break;
+                    }
+                }
+                m * if k % 2 == 0 { 12.0 + (k % 3) as f64 } else { 7.0 - (k % 2) as f64 * 0.5 }
+            }
             Regime::Stair => {
                 // triangle wave between 100 m and 200 m, one move every second step: stays inside the band
                 let j = (self.t / 2) % 40;
